@@ -156,6 +156,28 @@ Proof.
   intros [runs [E HF]]. apply concat_length_ge in HF. rewrite <- E in HF. simpl in HF. lia.
 Qed.
 
+(** the pinned code and the required behaviour differ only on a curve directly after ClosePath *)
+Lemma flatten_from_pinned_agrees tol s els : forall start last after,
+  no_curve_after_close after els = true ->
+  flatten_from false tol s (start, if after then None else last) els
+  = flatten_from true tol s (start, if after then start else last) els.
+Proof.
+  induction els as [|e r IH]; intros start last after Hok; [reflexivity|].
+  destruct e; cbn [no_curve_after_close] in Hok; cbn [flatten_from fl_step].
+  - rewrite (IH (Some p) (Some p) false Hok). reflexivity.
+  - rewrite (IH start (Some p) false Hok). reflexivity.
+  - apply andb_true_iff in Hok. destruct Hok as [Ha Hok]. destruct after; [discriminate|].
+    destruct last; rewrite (IH start (Some p2) false Hok); reflexivity.
+  - apply andb_true_iff in Hok. destruct Hok as [Ha Hok]. destruct after; [discriminate|].
+    destruct last; [destruct (flatten_cubic_pts _ _ _)|]; try reflexivity;
+      rewrite (IH start (Some p3) false Hok); reflexivity.
+  - rewrite (IH start last true Hok). reflexivity.
+Qed.
+
+Lemma flatten_pinned_agrees tol els :
+  no_curve_after_close false els = true -> flatten_pinned tol els = flatten tol els.
+Proof. intros Hok. exact (flatten_from_pinned_agrees tol (fsqrt tol) els None None false Hok). Qed.
+
 End Structure.
 
 (* ================================================================== *)
@@ -1226,3 +1248,118 @@ Proof.
   apply flatten_from_scale.
 Qed.
 End Scaling2.
+
+(* ================================================================== *)
+(** * Statements in the vocabulary of the model (for Properties/C05.v) *)
+Lemma q_cross_is_quad_cross q : q_cross q = quad_cross (H := RS) q.
+Proof. reflexivity. Qed.
+
+Lemma api_model_incr x y : x < y ->
+  approx_parabola_integral (H := RS) x < approx_parabola_integral (H := RS) y.
+Proof. rewrite !api_eq. apply api_incr. Qed.
+
+Lemma apinv_model_incr x y : x < y ->
+  approx_parabola_inv_integral (H := RS) x < approx_parabola_inv_integral (H := RS) y.
+Proof. rewrite !apinv_eq. apply apinv_incr. Qed.
+
+Lemma subdiv_t_monotone q s : quad_cross (H := RS) q <> 0 ->
+  let p := estimate_subdiv (H := RS) q s in
+  determine_subdiv_t (H := RS) p 0 = 0 /\ determine_subdiv_t (H := RS) p 1 = 1 /\
+  (forall x y, x < y -> determine_subdiv_t (H := RS) p x < determine_subdiv_t (H := RS) p y) /\
+  (forall x, 0 <= x <= 1 -> 0 <= determine_subdiv_t (H := RS) p x <= 1).
+Proof.
+  intros Hc p. pose proof (est_params_ok q s Hc) as Hp. fold p in Hp.
+  repeat split; rewrite ?det_t_eq.
+  - apply det_t_0; auto.
+  - apply det_t_1; auto.
+  - intros x y Hxy. rewrite !det_t_eq. apply det_t_incr; auto.
+  - apply det_t_range; auto.
+  - apply det_t_range; auto.
+Qed.
+
+(** the same, from the facts about the parameters alone *)
+Lemma subdiv_t_monotone_params p :
+  fp_u0 p = approx_parabola_inv_integral (H := RS) (fp_a0 p) ->
+  fp_uscale p = 1 / (approx_parabola_inv_integral (H := RS) (fp_a2 p) - approx_parabola_inv_integral (H := RS) (fp_a0 p)) ->
+  fp_a0 p <> fp_a2 p ->
+  determine_subdiv_t (H := RS) p 0 = 0 /\ determine_subdiv_t (H := RS) p 1 = 1 /\
+  (forall x y, x < y -> determine_subdiv_t (H := RS) p x < determine_subdiv_t (H := RS) p y).
+Proof.
+  rewrite !apinv_eq. intros E0 Es Hne. assert (Hp : params_ok p) by (repeat split; auto).
+  repeat split; rewrite ?det_t_eq.
+  - apply det_t_0; auto.
+  - apply det_t_1; auto.
+  - intros x y Hxy. rewrite !det_t_eq. apply det_t_incr; auto.
+Qed.
+
+Lemma flatten_kinds_R keep tol els :
+  exists out, flatten_gen (H := RS) keep tol els = Some out /\ forallb is_flat_el out = true.
+Proof.
+  destruct (flatten_total keep tol els) as [out E]. exists out. split; auto.
+  eapply flatten_gen_kinds; eauto.
+Qed.
+
+(** the refutation witness, with what [segments] says about it *)
+Definition wit_els : list (PathEl R) :=
+  [MoveTo (mkPoint 0 0); LineTo (mkPoint 10 0); @ClosePath R;
+   QuadTo (mkPoint 5 5) (mkPoint 10 10); LineTo (mkPoint 0 10)].
+
+Lemma wit_segments :
+  segments wit_els = Some [SegLine (mkLine (mkPoint 0 0) (mkPoint 10 0));
+                           SegLine (mkLine (mkPoint 10 0) (mkPoint 0 0));
+                           SegQuad (mkQuad (mkPoint 0 0) (mkPoint 5 5) (mkPoint 10 10));
+                           SegLine (mkLine (mkPoint 10 10) (mkPoint 0 10))].
+Proof.
+  assert (N : pt_neb (H := RS) (mkPoint 10 0) (mkPoint 0 0) = true).
+  { unfold pt_neb, pt_eqb. cbn [px py]. rs_unfold. destruct (Reqb_spec 10 0) as [E|E]; [lra|reflexivity]. }
+  unfold segments, wit_els. cbn [segs_from seg_step el_end]. rewrite N. reflexivity.
+Qed.
+
+Lemma flatten_runs_refuted :
+  exists tol els out,
+    (exists p r, els = MoveTo p :: r) /\
+    (exists q, In (SegQuad q) (match segments els with Some l => l | None => [] end)) /\
+    flatten_pinned (H := RS) tol els = Some out /\
+    ~ exists runs, out = concat runs /\ Forall2 run_shape els runs.
+Proof.
+  exists (1 / 10), wit_els, [MoveTo (mkPoint 0 0); LineTo (mkPoint 10 0); @ClosePath R; LineTo (mkPoint 0 10)].
+  split; [unfold wit_els; eauto|]. split; [|split].
+  - rewrite wit_segments. eexists. simpl. right; right; left. reflexivity.
+  - apply flatten_pinned_witness.
+  - apply flatten_pinned_not_runs.
+Qed.
+
+(* ================================================================== *)
+(** * Non-vacuity instances *)
+Lemma ex_cross : quad_cross (H := RS) (mkQuad (mkPoint 0 0) (mkPoint 1 1) (mkPoint 2 0)) <> 0.
+Proof. cbv [quad_cross v_cross pt_sub v_sub vx vy px py q0 q1 q2]. rs_unfold. lra. Qed.
+
+Definition ex_raised : CubicBez R := mkCubic (mkPoint 0 0) (mkPoint 2 2) (mkPoint 4 2) (mkPoint 6 0).
+
+Lemma ex_raised_n : fl_to_quads_n (H := RS) ex_raised (1 * to_quad_tol) = 1%Z.
+Proof.
+  rewrite fl_to_quads_n_ratio.
+  assert (E : tq_ratio ex_raised (1 * to_quad_tol) = 0).
+  { unfold tq_ratio, ex_raised. qunf. unfold Rdiv. ring. }
+  rewrite E. rs_unfold. unfold Rpowf.
+  destruct (Rlt_dec 0 0) as [L|_]; [lra|].
+  match goal with |- context [Req_EM_T ?a ?b] => destruct (Req_EM_T a b) as [E6|_] end.
+  { exfalso. revert E6. unfold one_sixth. rs_unfold. lra. }
+  change 0 with (IZR 0). rewrite Zceil_IZR, Ztrunc_IZR. reflexivity.
+Qed.
+
+Lemma pt_distance_self (p : Point R) : pt_distance (H := RS) p p = 0.
+Proof.
+  destruct p as [x y]. cbv [pt_distance v_hypot pt_sub vx vy px py]. rs_unfold.
+  replace ((x - x) * (x - x) + (y - y) * (y - y)) with 0 by ring. apply sqrt_0.
+Qed.
+
+(** a degree-raised parabola: its single quadratic reproduces it exactly, so the hypothesis of
+    [cubic_vertices_near] holds *)
+Lemma ex_raised_within : quads_within (1 * to_quad_tol) ex_raised (fl_to_quads_n (H := RS) ex_raised (1 * to_quad_tol)).
+Proof.
+  rewrite ex_raised_n. intros i t Hi Ht. assert (i = 0%Z) by lia. subst i.
+  assert (E : quad_eval (snd (fl_to_quad (H := RS) ex_raised 1 0)) t = cubic_eval ex_raised (piece_param (H := RS) ex_raised 1 0 t)).
+  { unfold piece_param, ex_raised. cunf. cbv [Z.add]. f_equal; field. }
+  rewrite E, pt_distance_self. unfold to_quad_tol. rs_unfold. cbv [Q2R Qnum Qden]. lra.
+Qed.
